@@ -141,7 +141,10 @@ def run_c13(ctx):
             states += rng.sample(pool, min(quota, len(pool)))
     tmp = tempfile.mkdtemp(prefix="sl_toml_")
     try:
+        ref0 = drv_toml.reference_digest()
         cases = [drv_toml.run_case(st, i, rng, tmp) for i, st in enumerate(states)]
+        for c in cases:
+            c["ref0"] = ref0
     finally:
         shutil.rmtree(tmp, ignore_errors=True)
     slim = [{k: v for k, v in c.items() if k != "toml"} for c in cases]
@@ -192,7 +195,8 @@ def run_c11(ctx):
         case, comp = drv_ctor.run_case(st, i)
         cases.append(case)
         signed = any(f in ("neg", "negsmall", "list_neg", "t_negentry", "t1_negentry", "t1_neg", "t2_neg", "t2_negaxis") for f in st["a"].values())
-        if comp is None or ((i % probe_every) and not (signed and i % 3 == 0)):
+        signed_table = any(f in ("t_negentry", "t1_negentry", "t1_neg", "t2_neg", "t2_negaxis") for f in st["a"].values())
+        if comp is None or ((i % probe_every) and not (signed and i % 3 == 0) and not signed_table):
             continue
         n_probe += 1
         for vs in ((12.0,) if ctx.quick else (12.0, -9.0)):
@@ -251,15 +255,24 @@ def _c10_probe(st, target, sign, rng):
     import sysloss.components as C
     from sysloss.system import System
     kind, key = target.split(".")
-    io_of = lambda x: 0.02 + 0.11 * x
-    vi_of = lambda y: 2.0 + 3.5 * y
+    # a quarter of the probes use tables whose io axis is written with Python ints (1, 2, 3, ... A) next to a
+    # fractional vi axis, or whose vi axis is written with ints: the number type of an axis must not matter
+    ints = rng.choice(["", "", "", "io", "vi"]) if kind not in ("LinReg",) else ""
+    io_of = (lambda x: 1 + int(x)) if ints == "io" else (lambda x: 0.02 + 0.11 * x)
+    vi_of = (lambda y: 2 + 3 * int(y)) if ints == "vi" else (lambda y: 2.0 + 3.5 * y)
     xs, ys, f = st["xs"], st["ys"], st["f"]
     lo, hi = {"eff": (0.55, 0.9), "vdrop": (0.1, 0.45), "ig": (2e-4, 3e-3)}[key]
     fmax = max(max(r) for r in f) or 1
     tab = {"vi": [vi_of(y) for y in ys], "io": [io_of(x) for x in xs],
            key: [[lo + (hi - lo) * v / max(fmax, 1) for v in row] for row in f]}
     const = lo + (hi - lo) * f[0][0] / max(fmax, 1)
-    I, V = io_of(st["qx"] / 2.0), vi_of(st["qy"] / 2.0)
+    I = (1 + st["qx"] / 2.0) if ints == "io" else io_of(st["qx"] / 2.0)
+    V = (2 + 3 * st["qy"] / 2.0) if ints == "vi" else vi_of(st["qy"] / 2.0)
+    if ints == "io":
+        lo, hi = {"eff": (0.7, 0.95), "vdrop": (0.05, 0.25), "ig": (2e-4, 3e-3)}[key]
+        tab[key] = [[lo + (hi - lo) * v / max(fmax, 1) for v in row] for row in f]
+        const = lo + (hi - lo) * f[0][0] / max(fmax, 1)
+        V = V + 6.0 if len(ys) == 1 else V
     if I <= 1e-4 or V <= 1.2:
         return None
     V = sign * V
@@ -281,9 +294,9 @@ def _c10_probe(st, target, sign, rng):
         if kind == "LinReg":
             return C.LinReg("X", vo=1.0 * (1 if sign > 0 else -1), vdrop=0.1, ig=p)
         if kind == "PSwitch":
-            return C.PSwitch("X", rs=0.05, ig=p)
+            return C.PSwitch("X", rs=0.05 if ints != "io" else 0.01, ig=p)
         if kind == "PMux":
-            return C.PMux("X", rs=0.05, ig=p)
+            return C.PMux("X", rs=0.05 if ints != "io" else 0.01, ig=p)
         if key == "vdrop":
             return C.Rectifier("X", vdrop=p)
         return C.Rectifier("X", rs=0.02, ig=p, iq=1e-5)
